@@ -516,10 +516,20 @@ class Parser:
     #     macros like \footnote must not be extracted here, the caller
     #     may still pass the tokens to the "real" expansion
     #
+    #   - for the same reason, the rotating lists of maths placeholders
+    #     are restored
+    #
     def get_text_expanded(self, toks):
         extracted = self.extracted.copy()
+        settings = self.parms.parser_lang_settings.values()
+        math_repls = [(s.math_repl_inline, s.math_repl_inline.copy(),
+                        s.math_repl_display, s.math_repl_display.copy())
+                                for s in settings]
         toks = self.expand_sequence(scanner.Buffer(toks.copy()))
         self.extracted = extracted
+        for inline, inline_sav, display, display_sav in math_repls:
+            inline[:] = inline_sav
+            display[:] = display_sav
         return self.get_text_direct(toks)
 
     #   remove all blank text lines, which contain at least one ActionToken
